@@ -585,6 +585,17 @@ theorem leaf_time_closed_form (perm : List Nat → List Nat) (r : Nat → Rat) :
             simp only [List.length_append, len]
             rw [show i - (L + L + L + L) = i - 4 * L by omega]
             exact ih (perm (perm (perm (perm q)))) (t * r (k + 2)) (i - 4 * L) (by omega)
+/-- Closed form of the qubit list of EVERY leaf call of the whole simulation: for an involutive
+`step_qubit_permutation` the `i`-th `trotter_step` call receives `qubits` for even `i` and the permuted list for odd
+`i` — together with `leaf_time_closed_form` the complete trace of `simulate_trotter` in closed form. -/
+theorem leaf_qubits_closed_form (perm : List Nat → List Nat) (h : ∀ q, perm (perm q) = q)
+    (r : Nat → Rat) (order nSteps : Nat) (q : List Nat) (time : Rat) (i : Nat)
+    (hi : i < nSteps * leafCount order) :
+    ((simulate perm r order nSteps q time).1.map (·.qubits))[i]? = some (if i % 2 = 0 then q else perm q) := by
+  obtain ⟨a, b, _⟩ := simulateLoop_spec perm h r order (time / nSteps) nSteps q
+  have := alternates_getElem perm _ q i a (by rw [qubitsOf_length, b]; exact hi)
+  rw [iterate_involutive perm h] at this
+  exact this
 /-- Exactness for commuting pieces (Mathlib matrix exponential): if the generators `G` of one Trotter
 step commute pairwise, the product over all leaf steps of the whole simulation — every order, every
 step count, every value of the Suzuki ratios, any involutive or other qubit bookkeeping — of the step
